@@ -114,7 +114,8 @@ func (f *Formatter) formatInfixExpression(expr *ast.InfixExpression) *ChunkBuffe
 
 	operator := expr.Operator
 	if expr.Operator == "+" { // concatenation
-		if !f.conf.ExplicitStringConcat {
+		// The sign can be dropped only when the parser reads the right operand as juxtaposed
+		if !f.conf.ExplicitStringConcat && canJuxtapose(expr.Right) {
 			operator = ""
 		}
 	}
@@ -126,6 +127,22 @@ func (f *Formatter) formatInfixExpression(expr *ast.InfixExpression) *ChunkBuffe
 	buf.Append(f.formatExpression(expr.Right))
 
 	return buf
+}
+
+// canJuxtapose reports whether the expression starts with a token that the parser accepts
+// as an implicit concatenation operand (identifier, string, if expression).
+// Otherwise `"a" + 1`, `"a" + -b` or `a + (b)` must keep the explicit sign:
+// `"a" 1` is a syntax error and `a (b)` is a function call.
+func canJuxtapose(expr ast.Expression) bool {
+	switch t := expr.(type) {
+	case *ast.Ident, *ast.String, *ast.IfExpression, *ast.FunctionCallExpression:
+		return true
+	case *ast.InfixExpression:
+		return canJuxtapose(t.Left)
+	case *ast.PostfixExpression:
+		return canJuxtapose(t.Left)
+	}
+	return false
 }
 
 // Format prefix expression like `if(req.http.Foo, "foo", "bar")`
